@@ -12,7 +12,7 @@ import (
 
 func init() {
 	register(&propDef{ID: "C09", Run: runC09,
-		Explain:    "Structural necessary conditions of 'concurrent listeners and backend changes never corrupt or kill the proxy', decided from the call graph, goroutine roots and must-hold locksets of /repo: (1) table-discipline: every map- or slice-typed field of a package struct type and every package-level map/slice variable (payload and configuration types excepted) is, in this order, single-threaded (main/init only), immutable after construction (every write on a freshly allocated object, in init, or through a mutator applied only to fresh objects), protected by one lock class held at every non-constructor access, or confined to the proxy message loop of an object that is not shared between listeners (with startup accesses from main admitted only before the loops can receive traffic); (2) hand-off: an object sent on a channel (directly or through HandleRawMessage / ConnectionAccepted / HandleBackend*) is not used by the sender afterwards, a pooled buffer is not used after Free; (3) lock-order: the held->acquired relation over the call graph is acyclic and no lock class is re-acquired while held; (4) field-discipline: the same classification for every scalar, pointer and interface field of those types, extended by 'every access through sync/atomic' and 'published before its readers start' (each reading thread is started by a go statement that the write must precede, transitively); (5) freshness: the message loop is started once per Proxy on the freshly allocated object, and per-listener objects are created inside the listener loop of startProxy. (rotation-bounds, shared with C05/C08): every index into the round-robin rotation is proved in range against the length read in the same critical section, so a removal between picking and fetching cannot push it out of range.",
+		Explain:    "Structural necessary conditions of 'concurrent listeners and backend changes never corrupt or kill the proxy', decided from the call graph, goroutine roots and must-hold locksets of /repo: (1) table-discipline: every map- or slice-typed field of a package struct type and every package-level map/slice variable (payload and configuration types excepted) is, in this order, single-threaded (main/init only), immutable after construction (every write on a freshly allocated object, in init, or through a mutator applied only to fresh objects), protected by one lock class held at every non-constructor access, or confined to the proxy message loop of an object that is not shared between listeners (with startup accesses from main admitted only before the loops can receive traffic); (2) hand-off: an object sent on a channel (directly or through HandleRawMessage / ConnectionAccepted / HandleBackend*) is not used by the sender afterwards, a pooled buffer is not used after Free; (3) lock-order: the held->acquired relation over the call graph is acyclic and no lock class is re-acquired while held; (4) field-discipline: the same classification for every scalar, pointer and interface field of those types, extended by 'every access through sync/atomic' and 'published before its readers start' (each reading thread is started by a go statement that the write must precede, transitively); (5) freshness: the message loop is started once per Proxy on the freshly allocated object, and per-listener objects are created inside the listener loop of startProxy. (rotation-bounds, shared with C05/C08): every index into the round-robin rotation is proved in range against the length read in the same critical section, so a removal between picking and fetching cannot push it out of range. Lock-order uses implicit call edges for String()/Error() methods of package types handed to fmt, zap or log calls.",
 		NotDecided: "delivery and liveness under load; data races on scalar/pointer fields (TCPServerTransport.exit, TCPBackend.conn); the startup window in which ProxyItem.start() still ranges over transports while the first message already triggers connectionEstablished."})
 }
 
